@@ -3,64 +3,90 @@
 (* C19: state is a deterministic function of history and survives           *)
 (* export/import.  Replicas execute the same block list independently (in   *)
 (* any interleaving); a replica may export after any block and an importer  *)
-(* starts from that export and executes the remaining blocks.               *)
-(*   st[r]     abstract application state of node r                          *)
+(* starts from that export and executes the remaining blocks.  A node may   *)
+(* crash and restart at any step: it keeps its durable state and loses its  *)
+(* volatile component.                                                       *)
+(*   st[r]     abstract application state of node r (durable, committed)     *)
 (*   ht[r]     number of blocks node r has executed                          *)
+(*   vol[r]    volatile component of node r: a memo (in-memory cache) that   *)
+(*             executing a block leaves behind - possibly taken from an      *)
+(*             intermediate state that was rolled back, so NOT a function of  *)
+(*             the committed state; None after a start / restart / import    *)
 (*   log[r]    per executed block: the digest a client of node r observes    *)
 (*             [blk, app (state commitment), res (tx results + events)]      *)
-(* The application is an abstract function Step(state, block) -> state;      *)
-(* with Nondet = TRUE a node may additionally flip a hidden bit while        *)
-(* executing a block (iteration-order / clock dependence): TLC must then     *)
-(* find disagreement - the non-vacuity witness of the Agreement invariant.   *)
+(* The application is an abstract function Step(state, block) -> state that  *)
+(* looks one thing up (Durable(state)).                                      *)
+(* Witnesses of non-vacuity (TLC must find disagreement):                    *)
+(*   Nondet = TRUE  a node may flip a hidden bit while executing a block     *)
+(*                  (iteration-order / clock dependence)                     *)
+(*   Stale = TRUE   the lookup trusts the memo when there is one: a node     *)
+(*                  that restarted (cold) and one that did not (warm)        *)
+(*                  compute different results from the same history          *)
 (***************************************************************************)
 EXTENDS Integers, Sequences, FiniteSets
 
-CONSTANTS Replicas, Importer, NBlocks, Nondet
+CONSTANTS Replicas, Importer, NBlocks, Nondet, Stale
 
-VARIABLES st, ht, log, exported, mode
+VARIABLES st, ht, log, exported, mode, vol
 
-vars == <<st, ht, log, exported, mode>>
+vars == <<st, ht, log, exported, mode, vol>>
 Nodes == Replicas \cup {Importer}
+None == -1
 
 \* the abstract state machine: a small mixing function over 0..6, blocks 1..NBlocks
-Step(s, b) == (s * 3 + b) % 7
-Commit(s) == s                 \* state commitment reported as app hash
-Result(s, b) == (s + b) % 5    \* what clients see of the block's transactions
+Step(s, b, seen) == (s * 3 + b + seen) % 7
+Commit(s) == s                       \* state commitment reported as app hash
+Result(s, b, seen) == (s + b + seen) % 5   \* what clients see of the block's transactions
+Durable(s) == s % 3                  \* the lookup, answered from the committed state
+Memo(s, b) == (s + 2 * b + 1) % 3    \* what executing block b leaves in memory
 
 Init == /\ st = [n \in Nodes |-> 0]
         /\ ht = [n \in Nodes |-> 0]
         /\ log = [n \in Nodes |-> <<>>]
         /\ exported = <<>>            \* <<>> or [at, state]
         /\ mode = [n \in Nodes |-> IF n = Importer THEN "waiting" ELSE "running"]
+        /\ vol = [n \in Nodes |-> None]
 
 Exec(n) ==
     /\ mode[n] = "running" /\ ht[n] < NBlocks
-    /\ LET b == ht[n] + 1 IN
+    /\ LET b == ht[n] + 1
+           seen == IF Stale /\ vol[n] # None THEN vol[n] ELSE Durable(st[n])
+       IN
        \E noise \in (IF Nondet THEN {0, 1} ELSE {0}) :
-         /\ st' = [st EXCEPT ![n] = (Step(st[n], b) + noise) % 7]
-         /\ log' = [log EXCEPT ![n] = Append(@, [blk |-> b, app |-> Commit((Step(st[n], b) + noise) % 7), res |-> Result(st[n], b)])]
+         /\ st' = [st EXCEPT ![n] = (Step(st[n], b, seen) + noise) % 7]
+         /\ log' = [log EXCEPT ![n] = Append(@, [blk |-> b, app |-> Commit((Step(st[n], b, seen) + noise) % 7), res |-> Result(st[n], b, seen)])]
          /\ ht' = [ht EXCEPT ![n] = b]
+         /\ vol' = [vol EXCEPT ![n] = Memo(st[n], b)]
     /\ UNCHANGED <<exported, mode>>
+
+\* crash + restart: the durable state survives, everything in memory is lost (a no-op on a cold node)
+Restart(n) ==
+    /\ mode[n] = "running" /\ vol[n] # None
+    /\ vol' = [vol EXCEPT ![n] = None]
+    /\ UNCHANGED <<st, ht, log, exported, mode>>
 
 Export(n) ==
     /\ n \in Replicas /\ exported = <<>> /\ ht[n] > 0
     /\ exported' = [at |-> ht[n], state |-> st[n]]
-    /\ UNCHANGED <<st, ht, log, mode>>
+    /\ UNCHANGED <<st, ht, log, mode, vol>>
 
+\* the exported genesis carries durable state only: an importer starts cold
 Import ==
     /\ mode[Importer] = "waiting" /\ exported # <<>>
     /\ st' = [st EXCEPT ![Importer] = exported.state]
     /\ ht' = [ht EXCEPT ![Importer] = exported.at]
     /\ mode' = [mode EXCEPT ![Importer] = "running"]
+    /\ vol' = [vol EXCEPT ![Importer] = None]
     /\ UNCHANGED <<log, exported>>
 
-Next == (\E n \in Nodes : Exec(n)) \/ (\E n \in Replicas : Export(n)) \/ Import
+Next == (\E n \in Nodes : Exec(n) \/ Restart(n)) \/ (\E n \in Replicas : Export(n)) \/ Import
 Spec == Init /\ [][Next]_vars
 
 EntryAt(n, b) == LET S == {k \in 1..Len(log[n]) : log[n][k].blk = b} IN
                  IF S = {} THEN <<>> ELSE log[n][CHOOSE k \in S : TRUE]
 
-\* two replicas that executed block b observed the same commitment and results
+\* two replicas that executed block b observed the same commitment and results - whatever either of them
+\* still holds or has lost in memory
 Agreement == \A a, c \in Replicas : \A b \in 1..NBlocks :
     (EntryAt(a, b) # <<>> /\ EntryAt(c, b) # <<>>) => EntryAt(a, b) = EntryAt(c, b)
 
